@@ -312,6 +312,19 @@ def gen_workchain_with_awaitables(rng):
     return program
 
 
+
+def with_communicator(rng, opts, p=0.25):
+    """In a share of the cases the process is given a communicator (simulated transport, sometimes behind plumpy's
+    LoopCommunicator): it then announces its transitions, is subscribed for control messages and has clean-ups of its own -
+    none of which may change what the property says."""
+    if rng.random() < p:
+        opts['comm'] = True
+        opts['pid'] = 'sim-pid'
+        if rng.random() < 0.4:
+            opts['wrap'] = True
+    return opts
+
+
 def outcome(proc):
     """Observable outcome of a process through its public accessors (JSON-like)."""
     state = proc.state.value
